@@ -265,8 +265,13 @@ def rule_queue_entity(ctx: Ctx) -> None:
             continue
         item = pops[0].ast.targets[0].id
         none = p.decided(lambda t: t == f"{item}isNone")
+        if none is True and not dl and p.decided(lambda t: t == f"{evq}.requestorisNone") is not True:
+            bad.append("an empty poll of a driver is not answered: the driver's outstanding-poll record is never cleared at this instant and triggers it held back are lost")
         if none is True and dl:
-            bad.append("delivers although nothing was popped")
+            # an empty poll may be *answered* (so the driver knows its poll is no longer outstanding) but carries nothing
+            kw0 = [{k.arg: unparse(k.value) for k in d_.keywords} for d_ in dl]
+            if len(dl) != 1 or kw0[0].get("payload") != "None" or kw0[0].get("target") != f"{evq}.requestor" or kw0[0].get("time") != "self.now":
+                bad.append(f"an empty poll may only be answered with one empty delivery to the requestor (found {kw0})")
         if none is False:
             kw = {k.arg: unparse(k.value) for k in dl[0].keywords} if len(dl) == 1 else {}
             if len(dl) != 1 or kw.get("payload") != item or kw.get("target") != f"{evq}.requestor" or kw.get("time") != "self.now":
@@ -301,21 +306,50 @@ def rule_queue_entity(ctx: Ctx) -> None:
     need(hook_fn, "C08-6: completion hook closure not found")
     hf = hook_fn[0]
     hff = ctx.flow(hf)
-    polls = [c for c in calls_in(hf.node) if path_of(c.func) == "QueuePollEvent"]
-    okp = len(polls) == 1 and hff.holds_at(node_of(hff.cfg, polls[0]), Fact("truthy", "self.target.has_capacity()"))
-    kw = {k.arg: unparse(k.value) for k in polls[0].keywords} if polls else {}
-    okp = okp and kw.get("target") == "self.queue" and kw.get("requestor") == "self" and kw.get("time") == hf.params()[0]
-    ctx.ob("C08-6", "G1", hf, polls[0] if polls else None, okp, "on completion the driver polls the queue iff the target has capacity, at the completion instant")
-    hn = prog.func(QD, "QueueDriver._handle_notify")
-    nff = ctx.flow(hn)
-    polls = [c for c in calls_in(hn.node) if path_of(c.func) == "QueuePollEvent"]
-    okn = len(polls) == 1 and nff.holds_at(node_of(nff.cfg, polls[0]), Fact("truthy", "self.target.has_capacity()"))
-    ctx.ob("C08-6", "G1", hn, polls[0] if polls else None, okn, "a notify polls the queue iff the target has capacity")
+    # one outstanding poll per instant: a poll shows up in has_capacity() only after poll → deliver → work event → acquire, all at one instant;
+    # a second trigger in between would dequeue an item for which there is no free slot (Server/ThreadPool then discard it).  So: polls are
+    # built in one place that records the instant; every request for a poll is refused while a poll of this instant is unanswered (and
+    # remembered); the delivery clears the record and a held-back trigger is looked at again.
+    drv = prog.cls(QD, "QueueDriver")
+    builders = [(m, c) for m in [f for f in drv.module.all_functions if f.cls is drv or (f.parent is not None and f.parent.cls is drv)] for c in calls_in(m.node) if path_of(c.func) == "QueuePollEvent"]
+    pb = prog.func(QD, "QueueDriver._poll")
+    okb = len(builders) == 1 and builders[0][0] is pb and len(stmts_matching(pb, "self._poll_sent_at = time")) == 1
+    kw = {k.arg: unparse(k.value) for k in builders[0][1].keywords} if builders else {}
+    okb = okb and kw.get("target") == "self.queue" and kw.get("requestor") == "self" and kw.get("time") == "time"
+    ctx.ob("C08-6", "G2", pb, builders[0][1] if builders else None, okb, "QueuePollEvents are built only by QueueDriver._poll, which records the instant of the outstanding poll")
+    inflight = prog.func(QD, "QueueDriver._poll_in_flight")
+    rets_i = [s_ for s_ in walk_stmts(inflight.node.body) if isinstance(s_, ast.Return)]
+    oki = len(rets_i) == 1 and {f.sig for f in atoms(rets_i[0].value, True)} == {("isnot", "self._poll_sent_at", "None"), ("eq", "self._poll_sent_at", "self.now")}
+    ctx.ob("C08-6", "G3", inflight, rets_i[0] if rets_i else None, oki, "a poll counts as outstanding only at the instant it was sent (an unanswered poll cannot block the driver at later instants)")
+    for fn_, when, timearg in ((hf, "on completion", hf.params()[0]), (prog.func(QD, "QueueDriver._handle_notify"), "on a notify", "self.now")):
+        fff = ctx.flow(fn_)
+        pcs = [c for c in calls_in(fn_.node) if path_of(c.func) == "self._poll"]
+        okp = len(pcs) == 1 and fff.holds_at(node_of(fff.cfg, pcs[0]), Fact("truthy", "self.target.has_capacity()")) and fff.holds_at(node_of(fff.cfg, pcs[0]), Fact("falsy", "self._poll_in_flight()")) \
+            and [unparse(a_) for a_ in pcs[0].args] == [timearg]
+        ctx.ob("C08-6", "G1", fn_, pcs[0] if pcs else None, okp, f"{when} the driver polls the queue iff the target has capacity and no poll of this instant is unanswered, at the current instant")
+        # a refused trigger is remembered
+        held = [s_ for s_ in walk_stmts(fn_.node.body) if isinstance(s_, ast.Assign) and path_of(s_.targets[0]) == "self._poll_wanted" and isinstance(s_.value, ast.Constant) and s_.value.value is True]
+        okh = len(held) == 1 and fff.holds_at(node_of(fff.cfg, held[0]), Fact("truthy", "self._poll_in_flight()"))
+        ctx.ob("C08-6", "G2", fn_, held[0] if held else None, okh, f"{when}, a trigger that arrives while a poll is outstanding is remembered (`_poll_wanted`), not dropped")
     hd = prog.func(QD, "QueueDriver._handle_delivery")
     calls = [c for c in calls_in(hd.node) if path_of(c.func) == "self._handle_work_payload"]
     okd = len(calls) == 1 and unparse(calls[0].args[0]).endswith(".payload")
     ctx.ob("C08-6", "G2", hd, calls[0] if calls else None, okd, "a delivery hands its payload to the worker exactly once")
-    ctx.floor("C08-6", 8)
+    hdf = ctx.flow(hd)
+    clr = [n_ for n_ in hdf.cfg.nodes if n_.kind == "stmt" and isinstance(n_.ast, ast.Assign) and path_of(n_.ast.targets[0]) == "self._poll_sent_at" and isinstance(n_.ast.value, ast.Constant) and n_.ast.value.value is None]
+    okc = len(clr) == 1 and all(any(nd is clr[0] for nd in p_.nodes) for p_ in enumerate_paths(hdf, hdf.cfg.entry) if p_.end == "exit")
+    # an empty delivery with a held-back trigger re-examines the queue; a real delivery is followed by the burst re-check (above)
+    bad_e = []
+    for p_ in enumerate_paths(hdf, hdf.cfg.entry):
+        if p_.end != "exit":
+            continue
+        empty = p_.decided(lambda t: t in ("event.payloadisNone",))
+        wanted = p_.decided(lambda t: t == "self._poll_wanted")
+        notes = [k for nd in p_.nodes if nd.kind == "stmt" for k in calls_in(nd.ast) if path_of(k.func) == "QueueNotifyEvent"]
+        if empty is True and wanted is True and len(notes) != 1:
+            bad_e.append(p_.describe()[:80])
+    ctx.ob("C08-6", "G2", hd, clr[0].ast if clr else None, okc and not bad_e, "every delivery (empty or not) clears the outstanding-poll record, and a trigger held back during an empty poll is looked at again")
+    ctx.floor("C08-6", 12)
 
 
 def rule_acquire_release(ctx: Ctx) -> None:
@@ -563,6 +597,9 @@ CODEL = QPS + "codel.py"
 DEADL = QPS + "deadline_queue.py"
 FAIR = QPS + "fair_queue.py"
 MUTANTS = [
+    ("driver-notify-polls-while-poll-outstanding", QD, "        if self._poll_in_flight():\n            # One poll per free slot: the delivery of the outstanding poll is\n            # followed by a re-check, which polls again if capacity remains.\n            self._poll_wanted = True\n            return []\n\n", "", "C08-6"),
+    ("driver-delivery-keeps-poll-record", QD, "        self._poll_sent_at = None\n        if event.payload is None:", "        if event.payload is None:", "C08-6"),
+    ("queue-empty-poll-unanswered", Q, "            if event.requestor is None:\n                return []\n", "            return []\n", "C08-6"),
     ("batch-timeout-cancelled-after-processing", "happysimulator/components/industrial/batch_processor.py", '        # Cancel any pending timeout\n        if self._timeout_event is not None:\n            self._timeout_event.cancel()\n            self._timeout_event = None\n\n        self._processing = True\n        yield self.process_time\n        self._processing = False\n', '        self._processing = True\n        yield self.process_time\n        self._processing = False\n        if self._timeout_event is not None:\n            self._timeout_event.cancel()\n            self._timeout_event = None\n', "C08-8"),
     ("shifted-server-no-repoll", SHIFT, '        if new_capacity > old_capacity:\n            # Items queued while there was no free capacity are only fetched on\n            # a notify or a completion: tell the driver to look at the queue.\n            events.append(QueueNotifyEvent(time=self.now, target=self.driver, queue_entity=self.queue))\n', "", "C08-7"),
     ("shifted-server-repoll-on-drop-only", SHIFT, "        if new_capacity > old_capacity:\n            # Items queued", "        if new_capacity < old_capacity:\n            # Items queued", "C08-7"),
@@ -590,8 +627,8 @@ MUTANTS = [
     ("queue-drop-uncounted", Q, "        if not accepted:\n            self.stats_dropped += 1", "        if not accepted:", "C08-6"),
     ("queue-poll-delivers-peek", Q, "        next_item = self.policy.pop()\n        if next_item is None:", "        next_item = self.policy.peek()\n        if next_item is None:", "C08-6"),
     ("driver-polls-without-capacity-check", QD, "        if not self.target.has_capacity():\n            logger.debug(\"[%s] Notify received but target at capacity\", self.name)\n            return []", "", "C08-6"),
-    ("driver-hook-polls-always", QD, "            if self.target.has_capacity():\n                logger.debug(\"[%s] Target has capacity, scheduling poll\", self.name)\n                return QueuePollEvent(time=time, target=self.queue, requestor=self)",
-     "            if True:\n                logger.debug(\"[%s] Target has capacity, scheduling poll\", self.name)\n                return QueuePollEvent(time=time, target=self.queue, requestor=self)", "C08-6"),
+    ("driver-hook-polls-always", QD, "            if self.target.has_capacity():\n                logger.debug(\"[%s] Target has capacity, scheduling poll\", self.name)\n                return self._poll(time)",
+     "            if True:\n                logger.debug(\"[%s] Target has capacity, scheduling poll\", self.name)\n                return self._poll(time)", "C08-6"),
     ("driver-copies-payload", QD, "        target_event = payload\n", "        target_event = Event(time=self.now, event_type=payload.event_type, target=self.target, context=payload.context)\n", "C08-6"),
     ("server-release-skipped-without-downstream", SRV, "        # Release processing capacity\n        self._concurrency_model.release(weight)\n", "        # Release processing capacity\n        if self._downstream is not None:\n            self._concurrency_model.release(weight)\n", "C08-5"),
     ("server-releases-default-weight", SRV, "        self._concurrency_model.release(weight)", "        self._concurrency_model.release()", "C08-5"),
